@@ -225,6 +225,48 @@ P_C12_RejectedWithout ==
         /\ (q.status = "ok" => DenSec(RootOf(q)) = DenSec(RootOf(PStep(ps, TkEof))))
         /\ (q.status = "fail" => q.diags # <<>>)
 
+(* C14: a callback's verdict binds - once the chosen invocation has failed  *)
+(* the parse is over, nothing later is invoked or applied                  *)
+P_C14_VerdictBinds ==
+  (Mode = "callbacks" /\ done = <<>>) =>
+    /\ (pcfg.failParse # 0 => ps.cn <= pcfg.failParse)
+    /\ (pcfg.failValid # 0 => ps.vn <= pcfg.failValid)
+    /\ (pcfg.failFunc  # 0 => ps.fn <= pcfg.failFunc)
+    /\ ((pcfg.failParse # 0 /\ ps.cn = pcfg.failParse) => ps.status = "fail")
+    /\ ((pcfg.failValid # 0 /\ ps.vn = pcfg.failValid) => ps.status = "fail")
+    /\ ((pcfg.failFunc  # 0 /\ ps.fn = pcfg.failFunc)  => ps.status = "fail")
+    /\ (ps.status = "fail" /\ ps.cblog # <<>> /\
+          (ps.cn = pcfg.failParse \/ ps.vn = pcfg.failValid \/ ps.fn = pcfg.failFunc) /\
+          (pcfg.failParse + pcfg.failValid + pcfg.failFunc > 0)) => TRUE
+
+(* C14: the stored value of an option with a value-parsing callback is the  *)
+(* one the callback produced for a logged invocation on that option         *)
+ParseEntries == SelectSeq(ps.cblog, LAMBDA e : e.k = "parse")
+P_C14_StoredIsProduced ==
+  (Mode = "callbacks" /\ done = <<>>) =>
+    \A i \in 1..Len(ps.stack[1].sec.opts) :
+       LET o == ps.stack[1].sec.opts[i]
+       IN ("parse" \in o.cb /\ ~o.reset) =>
+            \A j \in 1..Len(o.vals) :
+               \E n \in 1..Len(ParseEntries) :
+                  /\ ParseEntries[n].o = o.name
+                  /\ o.vals[j] = CbValue(o.type, ParseEntries[n].v, n)
+
+(* C14: the validation callback runs right after the store, with the new    *)
+(* value visible as the last one of the option                             *)
+P_C14_ValidateSeesValue ==
+  (Mode = "callbacks" /\ done = <<>>) =>
+    \A e \in 1..Len(ps.cblog) :
+       (ps.cblog[e].k = "valid" /\ ps.cblog[e].o \in {"i", "sl"}) =>
+          /\ e > 1
+          /\ ps.cblog[e-1].o = ps.cblog[e].o
+          /\ ps.cblog[e].vals # <<>>
+          /\ LET m == Len(SelectSeq(SubSeq(ps.cblog, 1, e), LAMBDA x : x.k = "parse"))
+                 pe == SelectSeq(SubSeq(ps.cblog, 1, e), LAMBDA x : x.k = "parse")
+             IN m > 0 /\ pe[m].o = ps.cblog[e].o /\
+                ps.cblog[e].vals[Len(ps.cblog[e].vals)] =
+                   CbValue(IF ps.cblog[e].o = "i" THEN "int" ELSE "str", pe[m].v, m)
+
 (* C07 on the model: a user pointer is released at most once, and never     *)
 (* while the store still holds it                                          *)
 RECURSIVE SeqToSet(_)
